@@ -40,7 +40,7 @@ fn main() {
             }
             rich::run(
                 &mut ctx,
-                &rich::RichOpts { n: num("n", 200) as usize, seed: num("seed", 1), tree, arbitrary_sel: get("arbsel", "0.2").parse().unwrap(), bad_paths: true, also_verify_issued: true, xfmt: get("xfmt", "0") == "1", only_issue: get("only", "") == "issue" },
+                &rich::RichOpts { n: num("n", 200) as usize, seed: num("seed", 1), tree, arbitrary_sel: get("arbsel", "0.2").parse().unwrap(), bad_paths: true, also_verify_issued: true, xfmt: get("xfmt", "0") == "1", only_issue: get("only", "") == "issue", plant: get("plant", "0").parse().unwrap() },
             );
         }
         "attack" => attack::run(
